@@ -18,7 +18,16 @@ RULE = ("model tie as C16 (same models, whole traces) on INTACT disk states: eve
         "hybrid-asm, reference v2, reference hybrid, also single file): piece lengths 64 KiB and 128 KiB (4 / 8 blocks per piece) with "
         "files of 3, 5, 6, 7 blocks below one piece (exact, one byte less, one byte into the last block) and multi-piece files whose "
         "LAST piece has such a block count (the merkle padding of a partial piece).  Non-trivial = distinct and "
-        "hits a boundary class (Appendix B, recheck row).")
+        "hits a boundary class (Appendix B, recheck row)."
+        "  METAFILES OF ANOTHER ENCODER WITH BEP 47 ATTRIBUTES (kinds ref-v1-attr, ref-v1-attr-pad): reference-encoded v1 multi-file "
+        "metafiles whose ORDINARY files carry attr x / h / xh (cycling, at least one non-empty file) -- plain, and with pad entries "
+        "(attr p, .pad/<n>) between the files -- take part like every other kind in the small scope (a part of the multi-file "
+        "layouts), the real-granularity model tie, the Checker.__init__ tie (fi_attr / fi_padding), the whole-run tie (recheck_model) "
+        "and the end-to-end trees, plus aimed end-to-end layouts over these kinds and v1-align: only an attr containing p marks "
+        "padding, every other entry is read from disk.  A DIRECTORY WHOSE ONLY FILE IS NAMED LIKE IT (data/data, and data/data/data): "
+        "Checker.__init__ tie, whole-run tie and aimed end-to-end layouts over every v2-view kind (incl. reference v2, whose file tree "
+        "then has the shape of a single-file metafile without info.length) + v1 / reference v1, through the payload root AND the "
+        "parent directory.")
 TRUSTED_BASE = rc.TRUSTED_BASE
 ASSUMPTIONS = rc.ASSUMPTIONS
 
